@@ -935,6 +935,12 @@ def families(tier, seed):
         jobs.append({"family": "expr", "prog": p, "child": False})
     for p in G.extension_programs() + G.reflected_programs():
         jobs.append({"family": "expr", "prog": p, "child": False})
+    # arrays indexed by a value wider than the table needs (simulator and netlist must agree on the indices beyond the table too)
+    for n_el in (2, 3):
+        for iw in (2, 3):
+            elems = [G.sig("a", (3, False)), G.sig("b", (2, True)), ["const", 5, None, False]][:n_el]
+            jobs.append({"family": "expr", "prog": ["array", elems, G.sig("c", (iw, False))], "child": False})
+            jobs.append({"family": "expr", "prog": ["add", ["array", elems, G.sig("c", (iw, True))], G.sig("d", (2, False))], "child": iw == 3})
     for k in range(16 if tier == "quick" else 200):
         jobs.append({"family": "split", "seed": seed * 100 + k, "kind": ["sync+comb", "comb+sync", "two-domains", "two-modules", "part+sync"][k % 5],
                      "async": k % 8 >= 4, "edge": "neg" if k % 3 == 0 else "pos"})
